@@ -165,17 +165,29 @@ class XL:
             d['spurious_error'] = err
         return d
 
-    def add_compounds(self, sa, wa, sb, wb):
-        pa = self.lib.CompoundParser(_b(sa), None); pb = self.lib.CompoundParser(_b(sb), None)
+    def add_compounds(self, sa, wa, sb, wb, same=False, twice=False):
+        """add_compound_data on freshly parsed operands.  same: the SAME object is passed as both operands (sb ignored);
+        twice: the call is repeated on the same operand objects and the second result returned as d['second'].
+        d['operands_changed'] tells whether the call modified the operand objects it was given (by value!)."""
+        pa = self.lib.CompoundParser(_b(sa), None); pb = pa if same else self.lib.CompoundParser(_b(sb), None)
         if not pa or not pb:
             if pa: self.lib.FreeCompoundData(pa)
-            if pb: self.lib.FreeCompoundData(pb)
+            if pb and not same: self.lib.FreeCompoundData(pb)
             return Err(-1, 'operand does not parse')
+        before = (self._cd(pa), self._cd(pb))
         p = self.lib.add_compound_data(pa.contents, wa, pb.contents, wb)
         self.calls += 1
         d = self._cd(p) if p else Err(-1, 'NULL')
         if p: self.lib.FreeCompoundData(p)
-        self.lib.FreeCompoundData(pa); self.lib.FreeCompoundData(pb)
+        if not isinstance(d, Err):
+            d['operands_changed'] = (self._cd(pa), self._cd(pb)) != before
+            if twice:
+                p2 = self.lib.add_compound_data(pa.contents, wa, pb.contents, wb)
+                self.calls += 1
+                d['second'] = self._cd(p2) if p2 else None
+                if p2: self.lib.FreeCompoundData(p2)
+        self.lib.FreeCompoundData(pa)
+        if not same: self.lib.FreeCompoundData(pb)
         return d
 
     @staticmethod
